@@ -274,6 +274,11 @@ def run(prop, tier):
             rep.sample({"cfg": {k: v for k, v in t["cfg"].items() if k != "pre"},
                         "events": [{k: v for k, v in e.items() if k in ("op", "f", "h", "ret", "exc", "keys", "mid", "v", "muts")}
                                    for e in t["ev"][:12]]})
+        if prop == "C19":
+            from . import check_runner
+            nv, ne = check_runner.run_c19_functions(rep, r, wd, quick)
+            rep.cov["traces_validated_against_impl"] += nv
+            rep.cov["evaluations"] += ne
         for rj in rej:
             t = traces[rj["tid"] - 1]
             facts = event_facts(prop, t, rj)
